@@ -14,6 +14,7 @@ KNOWN_JOIN_DURING_STOP = "join-while-stop-drain-pending"
 KNOWN_NONKAFKA_ESCAPE = "F12-nonkafka-error-escaping-join-swallowed"
 KNOWN_REQS_DURING_STOP_DRAIN = "group-requests-during-stop-drain"
 KNOWN_STOP_KILLS_DRAINING = "stop-kills-consumers-draining-for-rejoin"
+KNOWN_SECOND_STOP = "fatal-error-stop-leaves-while-stop-drains"
 
 WHAT = {
     "fenced": "a running partition consumer does not carry the member's current generation/member id, or its partition is not in the current assignment",
@@ -37,6 +38,12 @@ WHAT = {
     "fatalSurfaces": "a non-Kafka error did not surface on the Deferred returned by start()",
     "freshAfterEviction": "after an UnknownMemberId / InvalidGroupId eviction a JoinGroup quoted the old (non-empty) member id: a coordinator that forgot the member refuses it for ever, the member never becomes stable again",
     "escapeSurfaces": "a non-Kafka error escaping the join (look-up, metadata, leader partition load) did not surface on start's Deferred",
+    "leaveAfterDrain": "a LeaveGroup request was sent while a partition consumer was still running or draining (the member's generation ends with consumers alive)",
+    "composedCommitIds": "a partition consumer sent an OffsetCommit with a generation / member id other than those it was started with",
+    "composedLive": "a partition consumer sent a fetch / commit request after the group had stopped it or after its shutdown had completed",
+    "composedFenced": "a partition consumer started before the member's latest JoinGroup request (an earlier generation) sent a fetch / commit request after that JoinGroup",
+    "noInternalError": "the member's own machinery raised on an internal inconsistency (AlreadyCalled from Coordinator.stop cancelling a dead _rejoin_wait_dc, or the heartbeat looper's assertion): stop() fails half-way / the error path dies",
+    "coordinatorRefreshed": "a time-out / NotCoordinator / CoordinatorNotAvailable on a group request did not invalidate the client's cached coordinator (no reset_consumer_group_metadata in that step): the rejoin goes back to the same - possibly dead - broker",
 }
 
 
@@ -96,6 +103,17 @@ def tags_for(name, scn, steps, idx, first):
         if w and w[0] in ("stop", "leaveDone") and "snap" in steps[idx] and "stopping=1" in steps[idx]["snap"]:
             return [KNOWN_STOP_KILLS_DRAINING]
         return ["gracefulDrain"]
+    if name == "leaveAfterDrain":
+        # known (1): stop() while a rejoin's on_join_prepare drains - the leave goes out, the drain is killed when the
+        # leave reply arrives; known (2): the nested self.stop(error) of a FATAL error while a user stop() is still
+        # draining the consumers (a second USER stop() is refused since the fix: that would be a new violation)
+        if "jpc=prepare" in (steps[idx].get("st") or ""):
+            return [KNOWN_STOP_KILLS_DRAINING]
+        pre = steps[idx - 1]["snap"] if idx else ""
+        fatal = any(ev.endswith(k) for k in (" nonKafka", " cancelled", "err:nonKafka", "err:cancelled"))
+        if fatal and "stop" in scn["events"][:idx] and "started=1 stopping=0" in pre:
+            return [KNOWN_SECOND_STOP]
+        return ["leaveAfterDrain"]
     if name == "strictAfterStop":
         obs = steps[idx]["obs"] if idx is not None and idx < len(steps) else []
         if any(o.split()[0] in ("join", "sync", "loadParts") for o in obs if o):
@@ -281,7 +299,8 @@ def actions(world, faults_only=False):
     g = world.group
     acts = []
     if g._start_d is None and not g._stopping:
-        return [["start"]]
+        # never started: start(), or (the documented API in a "wrong" state) a stop() that raises RestopError
+        return [["start"]] if faults_only else [["start"], ["stop"]]
     for fam in ("coord", "meta", "join", "parts", "sync", "hb", "leave"):
         if not e.get(fam):
             continue
@@ -307,8 +326,10 @@ def actions(world, faults_only=False):
         dt = due - world.now
         acts.append((["advance %s" % show_frac(dt)] if dt > 0 else []) + ["fire %d" % tid])
     if not faults_only:
-        if g._start_d is not None:
-            acts.append(["stop"])
+        # the documented API (start, stop) in EVERY state: started, stop() draining, Coordinator.stop waiting for
+        # the leave reply, stopped for good; what they raise is an observation
+        acts.append(["stop"])
+        acts.append(["start"])
         if e["cerr"]:
             acts += [["consumerErr %d %s" % (e["cerr"][0], k)] for k in ("rebalanceInProgress", "illegalGeneration", "nonKafka")]
         if e["quirk"]:
@@ -400,13 +421,16 @@ def _worker_fullstack(args):
 
     ctx = LocalCtx()
     rng = random.Random(seed)
-    sc = FS.gen_scenario(rng)
+    sc = FS.gen_scenario(rng, flavour=seed % 4)
     run = FS.run_fullstack(seed, sc)
     out = {"seed": seed, "scenario": sc, "error": run.error, "problems": run.problems[:5], "members": []}
     for mlog in ([] if run.error else run.logs):
         dis, failing, steps, scn = FS.check_member(ctx, mlog, pid)
         mfs = classify(ctx, scn, steps, pid, failing) if failing else []
+        reqs = [r for st in steps for r in st.get("reqs", [])]
         out["members"].append({"name": mlog.name, "steps": len(steps), "disagreement": dis, "monitor_failures": mfs,
+                               "consumer_fetches": sum(1 for r in reqs if r.startswith("fetch")), "consumer_commits": sum(1 for r in reqs if r.startswith("commit")),
+                               "hard_stops": sum(1 for st in steps for o in st["obs"] if o.startswith("consumerStop")),
                                "errors_seen": sorted(set(s["ev"] for s in steps if " err:" in s["ev"]))})
     return out
 
@@ -421,9 +445,15 @@ def run_fullstack_stage(ctx, res, pid, seeds, pool, seen):
             res.count("fullstack:undecided-run")  # Livelock etc. in the simulation: not a verdict
             res.notes.append("fullstack seed %d: %s" % (r["seed"], r["error"]))
             continue
+        for f in r["scenario"].get("faults", []):
+            res.count("fullstack:fault:" + ("outage-" + ("failover" if f["elect"] else "comes-back") if "outage" in f else "slow-" + f["delay"] if "delay" in f else
+                                            "silent-" + f["silent"] if "silent" in f else "error-" + f["api"]))
         for m in r["members"]:
             res.traces_validated += 1
             res.count("fullstack:member-steps", m["steps"])
+            res.count("fullstack:consumer-fetch-requests", m.get("consumer_fetches", 0))
+            res.count("fullstack:consumer-commit-requests", m.get("consumer_commits", 0))
+            res.count("fullstack:consumers-hard-stopped", m.get("hard_stops", 0))
             for e in m["errors_seen"]:
                 res.count("fullstack:" + e.split()[0] + ":" + e.split()[-1])
             if m["disagreement"] is not None and len(res.disagreements) < 5:
@@ -458,11 +488,14 @@ def run_fullstack_stage(ctx, res, pid, seeds, pool, seen):
 RULE = {
     "C16": "REAL ConsumerGroup over a scripted client/consumers. Random rebalance histories generated on-line against the real object "
            "(member leader or follower; assignments growing/shrinking/moving; every group error kind on every request; heartbeat failures during joins; "
-           "consumer errors; shutdown completions ok/failed; stop at any point; timers early/late), plus bounded-exhaustive enumeration of every environment move "
-           "from five start states. Every step compares observations, inspected state and pending delayed calls with the Lean model; the Lean C16 monitors run on the "
+           "consumer errors; shutdown completions ok/failed; stop at any point; timers early/late; the documented API start()/stop() issued in EVERY state - before start, "
+           "while started, while a stop drains, while leaving, after the stop - with RestopError/RestartError as observations), plus bounded-exhaustive enumeration of every environment move "
+           "(incl. start and stop in every state) from eight start states. Every step compares observations, inspected state and pending delayed calls with the Lean model; the Lean C16 monitors run on the "
            "implementation trace. FULL STACK: 2-3 real members, each over its own real KafkaClient and real Consumers, against the simulated coordinator "
-           "(join windows up to 25 s, group error codes injected on JoinGroup/SyncGroup/Heartbeat/FindCoordinator/OffsetCommit/OffsetFetch, silent heartbeats, a member stopping); "
-           "each member's trace at the group/client boundary is validated against the model and fed to the same monitors, and running consumers / commits are compared with the "
+           "(join windows up to 25 s, group error codes injected on JoinGroup/SyncGroup/Heartbeat/FindCoordinator/OffsetCommit/OffsetFetch, silent heartbeats, slow OffsetCommit replies with an "
+           "eviction meanwhile (consumers hard-stopped with a commit in flight), the coordinator broker down for 15-40 s and back or failing over, a member stopping); "
+           "each member's trace at the group/client boundary is validated against the model and fed to the same monitors, EVERY fetch/commit call of every real partition consumer is recorded into "
+           "the composed trace (product model Afkak.GroupCompose; monitors composedCommitIds/composedLive/composedFenced), and running consumers / commits are compared with the "
            "coordinator's generation and assignment. non-trivial = at least one consumer was started and later shut down or stopped (a rebalance, an eviction or a stop happened).",
     "C17": "FULL STACK as for C16 with the end-to-end check that every member not stopped is a stable member within 200 virtual seconds after the last fault (joins may take up to 35 s). "
            "Scripted: same scenarios as C16 (scripted environment, on-line generation, bounded-exhaustive failure sequences at every step of the join protocol); after EVERY step the "
